@@ -137,7 +137,38 @@ def o_qfunc(case):
     return None
 
 
-ORACLES = {'curves': o_curve, 'limit': o_limit, 'qfunc': o_qfunc}
+def o_calls(case):
+    """R1/R3/R7: SNR given as int / float32 / float64 arrays and numpy scalars gives the values of the float64
+    twin; the caller's SNR array is never modified; repeated calls in any order return the same curves"""
+    kind, M = case['kind'], case['M']
+    m = make(kind, M)
+    base = np.array(case['snr'], dtype=float)
+    ref = {n: np.asarray(getattr(make(kind, M), 'calcTheoretical' + n)(base.copy()), dtype=float) for n in ('SER', 'BER')}
+    L = case['L']
+    ref['PER'] = np.asarray(make(kind, M).calcTheoreticalPER(base.copy(), L), dtype=float)
+    for dt in ('int64', 'int16', 'float32', 'float64'):
+        x = base.astype(dt)
+        keep = x.copy()
+        for order in (('BER', 'SER', 'PER', 'BER', 'SER'), ('PER', 'PER', 'SER', 'BER')):
+            for n in order:
+                v = m.calcTheoreticalPER(x, L) if n == 'PER' else getattr(m, 'calcTheoretical' + n)(x)
+                v = np.asarray(v, dtype=float)
+                # a float32 SNR axis legitimately limits the precision: 1-(1-BER)^L then carries an
+                # absolute error of about L * eps32
+                tol = 1e-4 if dt == 'float32' else 1e-9
+                atol = (1e-6 + 2e-7 * L) if dt == 'float32' else 4 * SLACK
+                if v.shape != base.shape or not np.allclose(v, ref[n], rtol=tol, atol=atol):
+                    return 'calls:%s:%s:%s' % (n, kind, dt), 'after call order %s' % (order,)
+                if not np.array_equal(x, keep):
+                    return 'calls:input-modified:%s:%s' % (kind, dt), 'calcTheoretical%s changed the SNR array' % n
+    for sc in (np.int16(base[0]), np.float32(base[0]), int(base[0]), float(base[0])):
+        v = float(m.calcTheoreticalSER(sc))
+        if not rel_close(v, float(ref['SER'][0]), 1e-5):
+            return 'calls:scalar:%s:%s' % (kind, type(sc).__name__), repr(v)
+    return None
+
+
+ORACLES = {'calls': o_calls, 'curves': o_curve, 'limit': o_limit, 'qfunc': o_qfunc}
 
 
 def run_oracle(ctx, call, case, key=None):
@@ -240,6 +271,8 @@ def check(ctx):
     for kind, M in mods(psk_max, qam_max):
         run_oracle(ctx, 'curves', {'kind': kind, 'M': M, 'snr': snrs, 'lengths': lengths}, key=('curves', kind, M))
         run_oracle(ctx, 'limit', {'kind': kind, 'M': M}, key=('limit', kind, M))
+        run_oracle(ctx, 'calls', {'kind': kind, 'M': M, 'snr': [float(v) for v in range(-30, 61, 6)],
+                                  'L': ctx.rng.choice([1, 7, 100])}, key=('calls', kind, M))
     for x in [0.0, 0.1, 1.0, 2.5, 5.0, 10.0, 20.0, 37.0, -1.0, -6.0] + [ctx.rng.uniform(-8, 38) for _ in range(40)]:
         run_oracle(ctx, 'qfunc', {'x': x})
     ctx.sample({'call': 'SER/BER.QAM', 'M': 16, 'snr': 10.0, 'compare': 'coef*Q(arg) from the Lean model vs calcTheoreticalSER'})
